@@ -120,6 +120,8 @@ class Server(utils.EventEmitter):
             channel.sink = lambda pdu: self.on_gatt_pdu(
                 channel, att.ATT_PDU.from_bytes(pdu)
             )
+            # Cleanup the state of this bearer when the channel is closed
+            channel.on(channel.EVENT_CLOSE, lambda: self.on_disconnection(channel))
 
         return self.device.create_l2cap_server(
             spec or l2cap.LeCreditBasedChannelSpec(psm=att.EATT_PSM), handler=on_channel
